@@ -120,6 +120,7 @@ fn main() {
             low_quality: false,
             avoid_coincident: kind.is_visual() && (cfg.vis.own_use + cfg.vis.own_collect > 0.0),
             low_conf,
+            vary_nobj: false,
         };
         let h = HistOpts { len: if cli.small { 3 } else if wide { 6 } else { 20 + rng.usize(31) }, lifecycle_ops: false, clear_wasted: false, auto_waste_ops: false, batches: false, empty_calls: true };
         let ops = gen_history(&mut rng, &w, &h);
